@@ -29,7 +29,7 @@ def plan(tier):
     for d in range(4):
         for chunk in range(4):
             sh.append({'kind': 'exhaustive', 'dealer': d, 'depth': depth, 'chunk': chunk, 'chunks': 4})
-    nw, per = (12, 200) if tier == 'quick' else (16, 6000)
+    nw, per = (16, 500) if tier == 'quick' else (16, 6000)
     for i in range(nw):
         sh.append({'kind': 'walks', 'n': per // 3 if i % 4 == 3 else per, 'long': i % 4 == 3})
     sh.append({'kind': 'explicit'})
